@@ -1,8 +1,131 @@
-(* drv_misc.ml -- model-side drivers of work package "misc" (see docs/AGENT_GUIDE.md) *)
+(* drv_misc.ml -- model-side drivers of work package "misc" (see docs/AGENT_GUIDE.md)
+
+   C18:  cert <check_expiry 0|1> <nblobs> <hex|C|K>{nblobs} <op>...
+   The extracted CertReload model is run with the environment functions (PEM parsing, key match,
+   X.509 analysis) instantiated from the classification carried by each blob token:
+     C (the blob used as certificate file):  n                      no PEM certificate in it
+                                             b                      PEM block present, DER unusable
+                                             c~<leaf fp>~<key id>~<identity>~<not_after offset, s>
+     K (the blob used as key file):          n | b | k~<key id>
+   The classification is produced by the Python side from how the material was constructed; the hex
+   bytes are ignored here (the implementation side ignores the classification). Clock: wall = 0,
+   not_after = offset * 1e9, cr_mono = index of the operation. *)
 open Model
 open Util
 
+type cclass = CNone | CBad | CCert of string * string * string * int   (* fp, key id, identity, off *)
+type kclass = KNone | KBad | KKey of string
+
+let split c s = String.split_on_char c s
+
+let parse_blob (tok : string) : cclass * kclass =
+  match split '|' tok with
+  | [_; c; k] ->
+    let cc = match split '~' c with
+      | ["n"] -> CNone
+      | ["b"] -> CBad
+      | ["c"; fp; kid; ident; off] -> CCert (fp, kid, ident, int_of_string off)
+      | _ -> failwith "bad cert class" in
+    let kc = match split '~' k with
+      | ["n"] -> KNone
+      | ["b"] -> KBad
+      | ["k"; kid] -> KKey kid
+      | _ -> failwith "bad key class" in
+    (cc, kc)
+  | _ -> failwith "bad blob token"
+
+let drv_cert args =
+  match args with
+  | ce :: nb :: rest ->
+    let check_expiry = (ce = "1") in
+    let n = int_of_string nb in
+    let blobs = Array.of_list (List.filteri (fun i _ -> i < n) rest) in
+    let cls = Array.map parse_blob blobs in
+    let ops = List.filteri (fun i _ -> i >= n) rest in
+    (* environment *)
+    let parse_certs (i : int) : (string * string) option =
+      match fst cls.(i) with CNone -> None | CBad -> Some ("bad", "") | CCert (fp, kid, _, _) -> Some (fp, kid) in
+    let parse_key (i : int) : string option =
+      match snd cls.(i) with KNone -> None | KBad -> Some "bad" | KKey kid -> Some kid in
+    let pair_ok ((fp, kid) : string * string) (k : string) : bool = fp <> "bad" && k <> "bad" && kid = k in
+    let parse_info (i : int) : (string * z) option =
+      match fst cls.(i) with
+      | CCert (_, _, ident, off) -> Some (ident, z_of_int (off * 1_000_000_000))
+      | _ -> None in
+    let blob tok = if tok = "-" then None else Some (int_of_string tok) in
+    let clock step = { cr_wall_an = Z0; cr_wall_chk = Z0; cr_mono = z_of_int step } in
+    let disk_c = ref None and disk_k = ref None in
+    let sys : ((int, string * string, string, string) cr_sys) option ref = ref None in
+    (* accepted connections / sessions survive a new reloader, as in the impl driver *)
+    let out = Buffer.create 256 in
+    let emit s = if Buffer.length out > 0 then Buffer.add_char out ' '; Buffer.add_string out s in
+    let observe (st : (int, string * string, string, string) cr_state) =
+      Printf.sprintf "[leaf=%s info=%s cnt=%d last=%s]"
+        (fst st.cr_active.l_chain)
+        (match st.cr_info with None -> "none" | Some i -> i.ci_ident)
+        (int_of_n st.cr_count)
+        (match st.cr_last with None -> "none" | Some z -> string_of_int (int_of_z z)) in
+    let errs = function CrIo -> "io" | CrTls -> "tls" in
+    let do_new step rd =
+      match cr_new parse_certs parse_key pair_ok parse_info rd (clock step) with
+      | Inl st ->
+        let (cs, ss) = match !sys with Some s -> (s.cr_conns, s.cr_sess) | None -> ([], []) in
+        sys := Some { cr_rl = st; cr_conns = cs; cr_sess = ss };
+        emit ("new=ok " ^ observe st)
+      | Inr e -> emit ("new=err:" ^ errs e) in
+    let do_reload step rd =
+      match !sys with
+      | None -> emit "r=noreloader"
+      | Some s ->
+        let (_, r) = cr_reload parse_certs parse_key pair_ok parse_info check_expiry s.cr_rl rd (clock step) in
+        let s' = cr_step parse_certs parse_key pair_ok parse_info check_expiry s (CrReload (rd, clock step)) in
+        sys := Some s';
+        let rs = match r with CrOk -> "ok" | CrErr e -> "err:" ^ errs e | CrPanic -> "panic" in
+        emit ("r=" ^ rs ^ " " ^ observe s'.cr_rl) in
+    List.iteri (fun step op ->
+        match split ':' op with
+        | ["Wc"; i] -> disk_c := blob i
+        | ["Wk"; i] -> disk_k := blob i
+        | ["Dc"] -> disk_c := None
+        | ["Dk"] -> disk_k := None
+        | ["N"] -> do_new step { rd_cert = !disk_c; rd_key = !disk_k; rd_cert2 = !disk_c }
+        | ["R"] -> do_reload step { rd_cert = !disk_c; rd_key = !disk_k; rd_cert2 = !disk_c }
+        | ["NN"; c1; k; c2] ->
+          do_new step { rd_cert = blob c1; rd_key = blob k; rd_cert2 = blob c2 };
+          disk_c := blob c2; disk_k := blob k
+        | ["RR"; c1; k; c2] ->
+          do_reload step { rd_cert = blob c1; rd_key = blob k; rd_cert2 = blob c2 };
+          disk_c := blob c2; disk_k := blob k
+        | ["A"] ->
+          (match !sys with
+           | None -> emit "a=noreloader"
+           | Some s ->
+             let s' = cr_step parse_certs parse_key pair_ok parse_info check_expiry s CrAccept in
+             sys := Some s';
+             emit (Printf.sprintf "a=%d" (List.length s'.cr_conns - 1)))
+        | ["H"; j] ->
+          (match (match !sys with None -> None | Some s -> cr_served_conn s (nat_of_int (int_of_string j))) with
+           | None -> emit "h=noconn"
+           | Some ch -> emit ("h=" ^ fst ch))
+        | ["E"] ->
+          (match !sys with
+           | None -> emit "e=noreloader"
+           | Some s ->
+             let s' = cr_step parse_certs parse_key pair_ok parse_info check_expiry s CrEstablish in
+             sys := Some s';
+             let j = List.length s'.cr_sess - 1 in
+             (match cr_served_sess s' (nat_of_int j) with
+              | Some ch -> emit (Printf.sprintf "e=%d:%s" j (fst ch))
+              | None -> emit "e=fail"))
+        | ["P"; j] ->
+          (match (match !sys with None -> None | Some s -> cr_served_sess s (nat_of_int (int_of_string j))) with
+           | None -> emit "p=nosession"
+           | Some ch -> emit ("p=" ^ fst ch))
+        | _ -> emit "BADOP") ops;
+    Buffer.contents out
+  | _ -> "BADCASE"
+
 let dispatch (drv : string) (args : string list) : string option =
-  ignore args;
   match drv with
+  | "cert" -> Some (drv_cert args)
   | _ -> None
